@@ -306,6 +306,18 @@ func (interp *Interpreter) cfg(root *node, sc *scope, importPath, pkgName string
 
 		case caseClause:
 			sc = sc.pushBloc()
+			// Pre-define symbols for labels defined in the clause body, as for blocks.
+			if len(n.child) > 0 && n.lastChild().kind == caseBody {
+				body := n.lastChild()
+				for _, c := range body.child {
+					if c.kind != labeledStmt {
+						continue
+					}
+					sym := &symbol{kind: labelSym, node: c, index: -1}
+					sc.sym[c.child[0].ident] = sym
+					c.sym = sym
+				}
+			}
 			if sn := n.anc.anc; sn.kind == typeSwitch && sn.child[1].action == aAssign {
 				// Type switch clause with a var defined in switch guard.
 				var typ *itype
